@@ -4,6 +4,7 @@ import (
 	"fmt"
 	"go/token"
 	"go/types"
+	"strings"
 
 	"golang.org/x/tools/go/ssa"
 )
@@ -11,7 +12,7 @@ import (
 func init() {
 	register(&propInfo{
 		ID:          "C08",
-		Explanation: "Close-once typestate and path analysis of client channels: (R08.1) the caller's channel is closed only inside the buffering goroutine, every close is followed by return on all paths (no further select, send or close), and values are sent to it only from there; (R08.2) every invocation of a sink callback with ok=false is preceded, under the sink lock, by removing the sink from the table it was looked up in (so the close notification, connection loss and client close cannot each close it), and the intake channel is closed only on the ok=false branch of the sink; (R08.3) the sink closer visits every entry of the table, unconditionally, and runs on every loss path before redialling and on every loop exit; (R08.4) the buffering goroutine always selects on the subscription context, whose arm closes the caller's channel and returns, and the sink drops values once that context is done; (R08.5) the forwarder's parallel slices use one removal scheme (otherwise a handler's close closes another caller's channel); (R08.6) a channel-id response sets up its sink once: after delivering it the in-flight entry is removed on every path. (R08.9) the close-when-drained test looks at the buffer itself. (R08.10) no value is dropped by a test of its payload bytes. (R08.11) an element leaves the client-side buffer only when it was handed to the caller; (R08.12) the peer-activity channel is signalled only inside the pong/ping handlers. (R08.13) channel ids are never derived from a length; (R08.14) every table of the connection object filled while it runs is emptied on the way to a redial.",
+		Explanation: "Close-once typestate and path analysis of client channels: (R08.1) the caller's channel is closed only inside the buffering goroutine, every close is followed by return on all paths (no further select, send or close), and values are sent to it only from there; (R08.2) every invocation of a sink callback with ok=false is preceded, under the sink lock, by removing the sink from the table it was looked up in (so the close notification, connection loss and client close cannot each close it), and the intake channel is closed only on the ok=false branch of the sink; (R08.3) the sink closer visits every entry of the table, unconditionally, and runs on every loss path before redialling and on every loop exit; (R08.4) the buffering goroutine always selects on the subscription context, whose arm closes the caller's channel and returns, and the sink drops values once that context is done; (R08.5) the forwarder's parallel slices use one removal scheme (otherwise a handler's close closes another caller's channel); (R08.6) a channel-id response sets up its sink once: after delivering it the in-flight entry is removed on every path. (R08.9) the close-when-drained test looks at the buffer itself. (R08.10) no value is dropped by a test of its payload bytes. (R08.11) an element leaves the client-side buffer only when it was handed to the caller; (R08.12) the peer-activity channel is signalled only inside the pong/ping handlers. (R08.13) channel ids are never derived from a length; (R08.14) every table of the connection object filled while it runs is emptied on the way to a redial. (R08.15) no append onto a prefix reslice of a byte buffer that arrived from elsewhere (it would overwrite the bytes behind the prefix, which are read next).",
 		NotDecided:  "That termination happens eventually under a given schedule; prefix property of received values beyond ordering (C07) — values are not inspected.",
 		Assumptions: []string{"closing a reflect channel twice panics; a select on a closed intake yields ok=false"},
 		Run:         runC08,
@@ -245,6 +246,8 @@ func runC08(c *Ctx) {
 	c.idsNotFromLength("R08.13")
 	c.rule("R08.14", "nothing keyed by a channel id outlives the connection the id belongs to: every table of the connection object that is filled while it runs is emptied (or made anew) on the way to a redial — ids start again at 1 on the new connection")
 	c.tablesEmptiedBeforeRedial("R08.14")
+	c.ruleOpt("R08.15", "what the caller receives is what was sent: no byte buffer that arrived from elsewhere (parameter, field, channel, call result) is appended to through a prefix reslice — append(b[:k], …) overwrites b's bytes behind k, which the frame decoder or a stream's consumer reads next")
+	c.noAppendIntoForeignBytes("R08.15")
 	c.rule("R08.12", "a silently dead connection is detected (and the streams on it closed): the peer-activity channel is signalled only inside the pong/ping handlers")
 	c.activityOnlyFromPeer("R08.12")
 	c.rule("R08.11", "a value leaves the client-side buffer only by having been handed to the caller: the element removed is the one offered in the select, in the arm where that send was chosen")
@@ -617,5 +620,105 @@ func (c *Ctx) tablesEmptiedBeforeRedial(rule string) {
 	}
 	if n == 0 {
 		c.und(rule, "connection tables", "-", "no map field of the connection is inserted into")
+	}
+}
+
+// noAppendIntoForeignBytes: R08.15 = R01.17. append(b[:k], more...) writes `more` into b's backing array
+// behind position k whenever the capacity allows — it does not copy. For a []byte that the function
+// did not make itself (a frame handed over by the reader, a parameter's raw bytes, a result buffer) those
+// bytes belong to someone who reads them next: a "shortened copy for the log" corrupts the frame that is
+// decoded a line later. Reported: an append whose destination is a two-index reslice with an upper bound
+// of a []byte whose origin is a parameter, a field, a channel receive or a call result. A three-index
+// reslice (b[:k:k]) forces a copy and is fine; slices made in the same function are the function's own.
+func (c *Ctx) noAppendIntoForeignBytes(rule string) {
+	p := c.P
+	isBytes := func(t types.Type) bool {
+		sl, ok := t.Underlying().(*types.Slice)
+		if !ok {
+			return false
+		}
+		b, ok := sl.Elem().Underlying().(*types.Basic)
+		return ok && b.Kind() == types.Uint8
+	}
+	var foreign func(v ssa.Value, d int) bool
+	foreign = func(v ssa.Value, d int) bool {
+		if d > 6 {
+			return false
+		}
+		switch x := v.(type) {
+		case *ssa.Parameter, *ssa.FreeVar:
+			return true
+		case *ssa.UnOp:
+			if x.Op == token.ARROW {
+				return true
+			}
+			if x.Op == token.MUL {
+				if _, ok := x.X.(*ssa.FieldAddr); ok {
+					return true
+				}
+				if al, ok := x.X.(*ssa.Alloc); ok {
+					// a local variable: foreign if something foreign was stored into it
+					for _, ref := range *al.Referrers() {
+						if st, ok := ref.(*ssa.Store); ok && st.Addr == ssa.Value(al) && foreign(st.Val, d+1) {
+							return true
+						}
+					}
+				}
+			}
+		case *ssa.Extract:
+			if sel, ok := x.Tuple.(*ssa.Select); ok {
+				_ = sel
+				return true
+			}
+			return foreign(x.Tuple, d+1)
+		case *ssa.Field:
+			return true
+		case *ssa.Phi:
+			for _, e := range x.Edges {
+				if foreign(e, d+1) {
+					return true
+				}
+			}
+		case *ssa.Slice:
+			return foreign(x.X, d+1)
+		case *ssa.Call:
+			if b, ok := x.Common().Value.(*ssa.Builtin); ok {
+				return b.Name() == "append" && len(x.Common().Args) > 0 && foreign(x.Common().Args[0], d+1)
+			}
+			// bytes handed out by a library helper are the caller's own only if the helper made them; unknown: not reported
+			return false
+		}
+		return false
+	}
+	n := 0
+	for _, fn := range p.Funcs {
+		if pkgOf(fn) != p.Root.Pkg && !strings.HasPrefix(pkgOf(fn).Path(), p.ModPath) {
+			continue
+		}
+		allInstrs(fn, func(in ssa.Instruction) {
+			call, ok := in.(*ssa.Call)
+			if !ok {
+				return
+			}
+			b, ok := call.Common().Value.(*ssa.Builtin)
+			if !ok || b.Name() != "append" || len(call.Common().Args) == 0 {
+				return
+			}
+			sl, ok := call.Common().Args[0].(*ssa.Slice)
+			if !ok || !isBytes(sl.Type()) || sl.High == nil || sl.Max != nil {
+				return
+			}
+			if k, isK := constInt(sl.High); isK && k == 0 {
+				return // b[:0]: deliberate reuse of the whole buffer, nothing of it is kept
+			}
+			if !foreign(sl.X, 0) {
+				return
+			}
+			n++
+			c.bad(rule, fmt.Sprintf("%s: append onto a prefix of bytes it did not make", fname(fn)), c.ipos(in), "append(b[:k], …) does not copy: it overwrites the bytes of b behind k, and b arrived from elsewhere (a frame, raw parameters, a result) where they are read next — a caller can receive a value the peer never sent, or the frame no longer parses and is dropped")
+		})
+	}
+	if n == 0 {
+		c.ok(rule, "no instance", "-", "no append onto a prefix of a byte slice that arrived from elsewhere")
 	}
 }
